@@ -137,6 +137,7 @@ Fails(e) ==
     [] e.op = "fixpoint"  -> FixpointFails(e)
     [] e.op = "tree"      -> TreeFails(e)
     [] e.op = "render"    -> RenderFails(e)
+    [] e.op = "dispatch"  -> DispatchFails(e)
     [] OTHER -> {"unknown-event"}
 
 -----------------------------------------------------------------------------
